@@ -498,15 +498,15 @@ class DictReader:
         elif itype == "binop":
             name = json_instruction["name"]
             ty = self.get_type(json_instruction["type"])
-            a = self.get_value_ref(json_instruction["a"])
+            a = self.get_value_ref(json_instruction["a"], ty=ty)
             operation = json_instruction["operation"]
-            b = self.get_value_ref(json_instruction["b"])
+            b = self.get_value_ref(json_instruction["b"], ty=ty)
             instruction = ir.Binop(a, operation, b, name, ty)
             self.register_value(instruction)
         elif itype == "unop":
             name = json_instruction["name"]
             ty = self.get_type(json_instruction["type"])
-            a = self.get_value_ref(json_instruction["a"])
+            a = self.get_value_ref(json_instruction["a"], ty=ty)
             operation = json_instruction["operation"]
             instruction = ir.Unop(operation, a, name, ty)
             self.register_value(instruction)
@@ -590,8 +590,9 @@ class DictReader:
         return typ
 
     def register_value(self, value):
-        if value.name in self.undefined_values:
-            old_value = self.undefined_values.pop(value.name)
+        # Resolve forward references (one placeholder per assumed type):
+        for key in [k for k in self.undefined_values if k[0] == value.name]:
+            old_value = self.undefined_values.pop(key)
             old_value.replace_by(value)
         assert value.name not in self.scopes[-1].value_map
         self.scopes[-1].value_map[value.name] = value
@@ -603,11 +604,13 @@ class DictReader:
                 value = scope.value_map[name]
                 break
         else:
-            if name in self.undefined_values:
-                value = self.undefined_values[name]
+            # The type of a value defined later on is not known yet, use
+            # a placeholder of the type the user expects:
+            if (name, ty) in self.undefined_values:
+                value = self.undefined_values[name, ty]
             else:
                 value = ir.Undefined(name, ty)
-                self.undefined_values[name] = value
+                self.undefined_values[name, ty] = value
         return value
 
     def enter_scope(self):
